@@ -86,7 +86,7 @@ func init() {
 			{Pkg: "biscuit", Func: "VerifC11AuthorizerLimits", Quick: p(), Thorough: p(), Covers: []string{"authorized", "refused", "allowed"}},
 			{Pkg: "datalog", Func: "VerifC11General",
 				Quick:    p("facts", 2, "rules", 1, "body", 1, "arity", 1, "vars", 1, "expr", 0, "kinds", 1, "varfacts", 0, "varrules", 0),
-				Thorough: p("facts", 2, "rules", 2, "body", 2, "arity", 1, "vars", 2, "expr", 0, "kinds", 1, "varfacts", 0, "varrules", 0),
+				Thorough: p("facts", 2, "rules", 1, "body", 2, "arity", 1, "vars", 2, "expr", 0, "kinds", 1, "varfacts", 0, "varrules", 0),
 				Covers:   []string{"returned", "success", "error"}},
 		},
 		Assumptions: append([]string{
